@@ -5,7 +5,7 @@
    parameter. [vs_share_int] is what destination.unlock computes (the whole remainder at the end,
    else left * period / full in integers, rounded down); the theorems below are about it, for all
    amounts up to 2^64 and all histories. [vs_share_f64] is what the code computed before commit
-   f517460 of /repo; the last section records, as history, the inputs on which that version
+   2bd0df4 of /repo; the last section records, as history, the inputs on which that version
    overpaid (oracle signatures C16:float64-rounding-of-remainder-at-expiry and
    C16:ahead-of-schedule-by-float64-rounding, which must not fire any more). *)
 From ZC Require Import Model.Vesting Proof.Vesting Proof.VestingWitness.
@@ -64,7 +64,7 @@ Theorem C16_owner_trigger_not_refused :
 Proof. exact vs_exact_trigger. Qed.
 Print Assumptions C16_owner_trigger_not_refused.
 
-(* ---- history: the float64 share used before f517460 ----
+(* ---- history: the float64 share used before 2bd0df4 ----
    amount 2^53+3: with 10 tokens of excess the destination was paid amount+1 and the owner's
    withdrawal and delete failed; with no excess every later request failed *)
 Theorem C16_history_float64_share_overpaid_at_expiry :
